@@ -11,6 +11,23 @@ inductive Doc
   | atom (text : String)
   deriving Repr, Inhabited
 
+mutual
+/-- structural equality test (the nested type has no derived `DecidableEq`) -/
+def Doc.beq : Doc → Doc → Bool
+  | .atom a, .atom b => a == b
+  | .node n fs, .node m gs => n == m && Doc.beqFields fs gs
+  | .list xs, .list ys => Doc.beqList xs ys
+  | _, _ => false
+def Doc.beqFields : List (String × Doc) → List (String × Doc) → Bool
+  | [], [] => true
+  | (n, d) :: fs, (m, e) :: gs => n == m && Doc.beq d e && Doc.beqFields fs gs
+  | _, _ => false
+def Doc.beqList : List Doc → List Doc → Bool
+  | [], [] => true
+  | d :: ds, e :: es => Doc.beq d e && Doc.beqList ds es
+  | _, _ => false
+end
+
 /-- `textwrap.indent(text, '  ')`: prefix every non-empty line -/
 def indentLines (ls : List String) : List String := ls.map (fun l => if l == "" then l else "  " ++ l)
 
@@ -57,26 +74,43 @@ def summaryDoc (f : Option String) (x : Doc) : Doc :=
   | some g => fnDoc g [x]
   | none => x
 
-/-- BALANCES [AT f]:  SELECT account, sum(f(position)) GROUP BY account, account_sortkey(account)
-    ORDER BY account_sortkey(account)   (FROM and WHERE are taken from the statement) -/
-def balancesDoc (f : Option String) : Doc :=
-  .node "select" [
-    ("targets", .list [targetDoc (colDoc "account"), targetDoc (fnDoc "sum" [summaryDoc f (colDoc "position")])]),
-    ("group-by", .node "groupby" [("columns", .list [colDoc "account", fnDoc "account_sortkey" [colDoc "account"]])]),
-    ("order-by", .list [.node "orderby" [("column", fnDoc "account_sortkey" [colDoc "account"]), ("ordering", .atom "asc")]])]
+/-- optional clause fields, in the order `tosexp` prints them -/
+def optField (name : String) (d : Option Doc) : List (String × Doc) :=
+  match d with
+  | some d => [(name, d)]
+  | none => []
 
-/-- JOURNAL [account] [AT f]:  SELECT date, flag, maxwidth(payee, 48), maxwidth(narration, 80), account,
-    f(position), f(balance) [WHERE account ~ "account"] -/
-def journalDoc (account : Option String) (f : Option String) : Doc :=
+/-- BALANCES [AT f] [FROM frm] [WHERE whr]:  SELECT account, sum(f(position)) [FROM frm] [WHERE whr]
+    GROUP BY account, account_sortkey(account) ORDER BY account_sortkey(account) -/
+def balancesDocFW (f : Option String) (frm whr : Option Doc) : Doc :=
+  .node "select" ([
+    ("targets", .list [targetDoc (colDoc "account"), targetDoc (fnDoc "sum" [summaryDoc f (colDoc "position")])])] ++
+    optField "from-clause" frm ++ optField "where-clause" whr ++ [
+    ("group-by", .node "groupby" [("columns", .list [colDoc "account", fnDoc "account_sortkey" [colDoc "account"]])]),
+    ("order-by", .list [.node "orderby" [("column", fnDoc "account_sortkey" [colDoc "account"]), ("ordering", .atom "asc")]])])
+
+def balancesDoc (f : Option String) : Doc := balancesDocFW f none none
+
+/-- JOURNAL [account] [AT f] [FROM frm]:  SELECT date, flag, maxwidth(payee, 48), maxwidth(narration, 80), account,
+    f(position), f(balance) [FROM frm] [WHERE account ~ "account"] -/
+def journalDocF (account : Option String) (f : Option String) (frm : Option Doc) : Doc :=
   .node "select" ([
     ("targets", .list [targetDoc (colDoc "date"), targetDoc (colDoc "flag"),
                        targetDoc (fnDoc "maxwidth" [colDoc "payee", intDoc 48]),
                        targetDoc (fnDoc "maxwidth" [colDoc "narration", intDoc 80]),
                        targetDoc (colDoc "account"),
                        targetDoc (summaryDoc f (colDoc "position")), targetDoc (summaryDoc f (colDoc "balance"))])] ++
+    optField "from-clause" frm ++
     (match account with
      | some a => [("where-clause", .node "match" [("left", colDoc "account"), ("right", strDoc a)])]
      | none => []))
+
+def journalDoc (account : Option String) (f : Option String) : Doc := journalDocF account f none
+
+/-- the sentinel clauses the translator hands to the live transforms -/
+def sentinelFrom : Doc :=
+  .node "from" [("expression", colDoc "vp_from"), ("close", .atom "True"), ("clear", .atom "True")]
+def sentinelWhere : Doc := colDoc "vp_where"
 
 /-- `execute_print`: the loop that collects the entries satisfying the FROM expression -/
 def printLoop {E : Type} (p : E → Bool) (entries : List E) : List E :=
